@@ -13,7 +13,8 @@ Open Scope N_scope.
 Ltac admin_prep := unfold py_not_in, py_is_not_none, py_ne_op.
 Ltac admin_cbn :=
   cbn [bind py_truthy py_isinstance_dict py_isinstance_list py_eq_op py_in py_not py_and py_or
-       py_call py_call_await py_iscoroutinefunction is_callable contains_v truthy negb andb orb
+       py_call py_call_await py_await py_iscoroutine py_try py_iscoroutinefunction is_callable
+       contains_v truthy negb andb orb
        eval_args py_local_function py_ext py_is_none py_empty_dict
        item_on item_set item_call py_method app].
 Ltac admin_getattr :=
@@ -39,8 +40,16 @@ Ltac case_step :=
       | _ => let E := fresh "E" in destruct x eqn:E
       end
   end.
+(* what the oracle answers (closed applications only, innermost first by construction) *)
+Ltac oracle_step :=
+  match goal with
+  | |- context [o_call ?o ?f ?a] => let E := fresh "E" in destruct (o_call o f a) eqn:E
+  | |- context [o_iscoroutine ?o ?v] => let E := fresh "E" in destruct (o_iscoroutine o v) eqn:E
+  | |- context [o_await ?o ?v] => let E := fresh "E" in destruct (o_await o v) eqn:E
+  | |- context [o_iscoro ?o ?v] => let E := fresh "E" in destruct (o_iscoro o v) eqn:E
+  end.
 Ltac admin_crunch H :=
-  repeat (first [progress admin_cbn | getattr_class_step | ext_step H | case_step]);
+  repeat (first [progress admin_cbn | getattr_class_step | ext_step H | oracle_step | case_step]);
   try reflexivity; try congruence; try (cbn in *; congruence).
 
 (* ------------------------------------------------------------------ *)
@@ -89,35 +98,28 @@ Proof.
     + cbn [truthy]. rewrite Hp, Hr. reflexivity.
 Qed.
 
-Lemma auth_outcome_ok_none pred cfg a v : auth_outcome pred cfg a = Ok v -> v = PNone.
+(* the outcome is either "accepted" or ConnectionRefusedError, nothing else - for EVERY configuration *)
+Lemma auth_outcome_cases pred cfg a :
+  auth_outcome pred cfg a = Ok PNone \/ auth_outcome pred cfg a = Err ConnectionRefused.
 Proof.
-  unfold auth_outcome. intro E.
-  repeat match type of E with
-         | context [if ?b then _ else _] => destruct b; try discriminate
-         | context [match ?x with _ => _ end] => destruct x; try discriminate
-         end; inversion E; reflexivity.
+  unfold auth_outcome.
+  destruct (truthy cfg); [|left; reflexivity].
+  destruct cfg as [|b|z|t|s|s|l|l|kv|n]; auto.
+  - destruct (existsb (py_eq a) l); auto.
+  - destruct (py_eq a (PDict kv)); auto.
+  - destruct (pred (PObj n) a) as [r|e]; [destruct (truthy r)|]; auto.
 Qed.
 
 Lemma auth_outcome_refuses pred cfg a :
-  cfg_in_domain cfg -> pred_returns pred cfg a -> ~ accepted_by pred cfg a ->
-  auth_outcome pred cfg a = Err ConnectionRefused.
+  ~ accepted_by pred cfg a -> auth_outcome pred cfg a = Err ConnectionRefused.
 Proof.
-  intros Hdom Hret Hna.
-  destruct (auth_outcome pred cfg a) as [v|e] eqn:E.
-  - exfalso. apply Hna. apply auth_outcome_accepts.
-    rewrite E. f_equal. eapply auth_outcome_ok_none; eauto.
-  - unfold auth_outcome in E.
-    destruct Hdom as [T|[(kv & ->)|[(l & ->)|(n & ->)]]].
-    + rewrite T in E. discriminate.
-    + destruct (truthy (PDict kv)); [|discriminate]. destruct (py_eq a (PDict kv)); [discriminate|symmetry; exact E].
-    + destruct (truthy (PList l)); [|discriminate]. destruct (existsb (py_eq a) l); [discriminate|symmetry; exact E].
-    + cbn [truthy] in E. destruct (Hret n eq_refl) as [r Hr]. rewrite Hr in E.
-      destruct (truthy r); [discriminate|symmetry; exact E].
+  intro Hna. destruct (auth_outcome_cases pred cfg a) as [H|H]; [|exact H].
+  exfalso. apply Hna. apply auth_outcome_accepts. exact H.
 Qed.
 
-(* an exception of the predicate is NOT turned into a refusal: it propagates *)
+(* an exception of the predicate (or of awaiting its result) IS a refusal *)
 Lemma auth_outcome_predicate_raises pred n a e :
-  pred (PObj n) a = Err e -> auth_outcome pred (PObj n) a = Err e.
+  pred (PObj n) a = Err e -> auth_outcome pred (PObj n) a = Err ConnectionRefused.
 Proof. intro H. unfold auth_outcome. cbn [truthy]. rewrite H. reflexivity. Qed.
 
 (* ------------------------------------------------------------------ *)
@@ -126,17 +128,14 @@ Proof. intro H. unfold auth_outcome. cbn [truthy]. rewrite H. reflexivity. Qed.
 Definition auth_statement (run : pv -> Res pv) (pred : pv -> pv -> Res pv) (cfg : pv) : Prop :=
   forall a : pv,
     (run a = Ok PNone <-> accepted_by pred cfg a) /\
-    (cfg_in_domain cfg -> pred_returns pred cfg a -> ~ accepted_by pred cfg a ->
-     run a = Err ConnectionRefused) /\
-    (forall n e, cfg = PObj n -> pred cfg a = Err e -> run a = Err e).
+    (~ accepted_by pred cfg a -> run a = Err ConnectionRefused).
 
 Theorem auth_sync o c sid env :
   ext_total o ->
   auth_statement (InstrumentedServer_admin_connect o (mk_admin_self c) sid env) (pred_sync o) (a_auth c).
 Proof.
   intros Hext a. rewrite (sync_admin_connect_spec o c sid env a Hext).
-  split; [apply auth_outcome_accepts|]. split; [apply auth_outcome_refuses|].
-  intros n e -> H. apply auth_outcome_predicate_raises. exact H.
+  split; [apply auth_outcome_accepts|apply auth_outcome_refuses].
 Qed.
 
 Theorem auth_async o c sid env :
@@ -144,28 +143,62 @@ Theorem auth_async o c sid env :
   auth_statement (InstrumentedAsyncServer_admin_connect o (mk_admin_self c) sid env) (pred_async o) (a_auth c).
 Proof.
   intros Hext a. rewrite (async_admin_connect_spec o c sid env a Hext).
-  split; [apply auth_outcome_accepts|]. split; [apply auth_outcome_refuses|].
-  intros n e -> H. apply auth_outcome_predicate_raises. exact H.
+  split; [apply auth_outcome_accepts|apply auth_outcome_refuses].
 Qed.
 
-(* both classes decide alike, unless the configured callable is a coroutine function
-   (which only the asyncio class awaits) *)
+(* a predicate that raises refuses (both classes); in the asyncio class also when awaiting raises *)
+Theorem auth_raising_predicate_refuses o n ro mode ns sid env a e :
+  ext_total o ->
+  (o_call o (PObj n) [a] = Err e ->
+   InstrumentedServer_admin_connect o (mk_admin_self (mkACfg (PObj n) ro mode ns)) sid env a = Err ConnectionRefused /\
+   InstrumentedAsyncServer_admin_connect o (mk_admin_self (mkACfg (PObj n) ro mode ns)) sid env a = Err ConnectionRefused) /\
+  (forall r, o_call o (PObj n) [a] = Ok r -> o_iscoroutine o r = true -> o_await o r = Err e ->
+   InstrumentedAsyncServer_admin_connect o (mk_admin_self (mkACfg (PObj n) ro mode ns)) sid env a = Err ConnectionRefused).
+Proof.
+  intros Hext. split.
+  - intro H. rewrite sync_admin_connect_spec, async_admin_connect_spec by assumption. cbn [a_auth].
+    split; apply (auth_outcome_predicate_raises _ n a e); unfold pred_sync, pred_async; rewrite H; reflexivity.
+  - intros r Hr Hc Ha. rewrite async_admin_connect_spec by assumption. cbn [a_auth].
+    apply (auth_outcome_predicate_raises _ n a e). unfold pred_async. rewrite Hr. cbn [bind]. rewrite Hc. exact Ha.
+Qed.
+
+(* the asyncio class awaits a coroutine result whatever kind of callable produced it, and decides on
+   the awaited value; a non-coroutine result is used as it is *)
+Theorem async_awaits_coroutine_results o n ro mode ns sid env a r :
+  ext_total o -> o_call o (PObj n) [a] = Ok r ->
+  InstrumentedAsyncServer_admin_connect o (mk_admin_self (mkACfg (PObj n) ro mode ns)) sid env a =
+  (if o_iscoroutine o r
+   then match o_await o r with
+        | Ok v => if truthy v then Ok PNone else Err ConnectionRefused
+        | Err _ => Err ConnectionRefused end
+   else if truthy r then Ok PNone else Err ConnectionRefused).
+Proof.
+  intros Hext Hr. rewrite async_admin_connect_spec by assumption.
+  unfold auth_outcome, pred_async. cbn [a_auth truthy]. rewrite Hr. cbn [bind].
+  destruct (o_iscoroutine o r); reflexivity.
+Qed.
+
+(* both classes decide alike, unless the predicate's result is a coroutine (which only the asyncio
+   class awaits) *)
 Theorem auth_sync_async_same o c sid env a :
-  ext_total o -> o_iscoro o (a_auth c) = false ->
+  ext_total o -> (forall r, o_call o (a_auth c) [a] = Ok r -> o_iscoroutine o r = false) ->
   InstrumentedServer_admin_connect o (mk_admin_self c) sid env a =
   InstrumentedAsyncServer_admin_connect o (mk_admin_self c) sid env a.
 Proof.
   intros Hext Hc. rewrite sync_admin_connect_spec, async_admin_connect_spec by assumption.
-  unfold auth_outcome, pred_sync, pred_async. rewrite Hc. reflexivity.
+  unfold auth_outcome, pred_sync, pred_async.
+  destruct (o_call o (a_auth c) [a]) as [r|e] eqn:E; [|reflexivity].
+  cbn [bind]. rewrite (Hc r eq_refl). reflexivity.
 Qed.
 
-(* documented misuse, recorded: the threaded class given a coroutine function accepts everybody *)
-Lemma sync_class_coroutine_predicate_accepts_all o n ro mode ns sid env a :
-  ext_total o -> o_iscoro o (PObj n) = true ->
+(* documented misuse, recorded: the threaded class cannot await; a predicate whose call returns a
+   coroutine object (always truthy) accepts everybody there *)
+Lemma sync_class_coroutine_predicate_accepts_all o n ro mode ns sid env a r :
+  ext_total o -> o_call o (PObj n) [a] = Ok r -> truthy r = true ->
   InstrumentedServer_admin_connect o (mk_admin_self (mkACfg (PObj n) ro mode ns)) sid env a = Ok PNone.
 Proof.
-  intros Hext Hc. rewrite sync_admin_connect_spec by assumption.
-  unfold auth_outcome, pred_sync. cbn [a_auth truthy]. rewrite Hc. reflexivity.
+  intros Hext Hr Ht. rewrite sync_admin_connect_spec by assumption.
+  unfold auth_outcome, pred_sync. cbn [a_auth truthy]. rewrite Hr, Ht. reflexivity.
 Qed.
 
 (* recorded reading: every FALSY configuration disables authentication, not only False *)
@@ -179,54 +212,60 @@ Proof.
 Qed.
 
 (* ---- the hypotheses are satisfiable; the decision is not trivial ---- *)
-Definition ex_oracle (res : Res pv) : oracle :=
-  mkOracle (fun _ _ => res) (fun _ => false) (fun _ _ => Ok PNone).
-Lemma ex_oracle_total res : ext_total (ex_oracle res).
+(* calling the predicate gives [res]; [aw] = Some r: that value is a coroutine whose awaited result is r *)
+Definition ex_oracle (res : Res pv) (aw : option (Res pv)) : oracle :=
+  mkOracle (fun _ _ => res) (fun _ => false)
+           (fun v => match aw with Some _ => pv_eqb v coroutine_object | None => false end)
+           (fun _ => match aw with Some r => r | None => Err TypeError end)
+           (fun _ _ => Ok PNone).
+Lemma ex_oracle_total res aw : ext_total (ex_oracle res aw).
 Proof. intros n a. exists PNone. reflexivity. Qed.
 
 Definition ex_creds : pv := PDict [(PStr (s2l "username"), PStr (s2l "admin")); (PStr (s2l "password"), PStr (s2l "secret"))].
 Definition ex_creds_perm : pv := PDict [(PStr (s2l "password"), PStr (s2l "secret")); (PStr (s2l "username"), PStr (s2l "admin"))].
 Definition ex_creds_sub : pv := PDict [(PStr (s2l "username"), PStr (s2l "admin"))].
 Definition ex_cfg (auth : pv) : acfg := mkACfg auth (PBool false) (PStr (s2l "development")) (PStr (s2l "/admin")).
+Definition ex_o := ex_oracle (Ok PNone) None.
 
 Example ex_dict_accepts_permutation :
-  InstrumentedServer_admin_connect (ex_oracle (Ok PNone)) (mk_admin_self (ex_cfg ex_creds)) (PStr (s2l "S0")) (PDict []) ex_creds_perm
+  InstrumentedServer_admin_connect ex_o (mk_admin_self (ex_cfg ex_creds)) (PStr (s2l "S0")) (PDict []) ex_creds_perm
   = Ok PNone.
 Proof. vm_compute. reflexivity. Qed.
 Example ex_dict_refuses_subset :
-  InstrumentedAsyncServer_admin_connect (ex_oracle (Ok PNone)) (mk_admin_self (ex_cfg ex_creds)) (PStr (s2l "S0")) (PDict []) ex_creds_sub
+  InstrumentedAsyncServer_admin_connect ex_o (mk_admin_self (ex_cfg ex_creds)) (PStr (s2l "S0")) (PDict []) ex_creds_sub
   = Err ConnectionRefused.
 Proof. vm_compute. reflexivity. Qed.
 Example ex_list_membership :
-  InstrumentedServer_admin_connect (ex_oracle (Ok PNone)) (mk_admin_self (ex_cfg (PList [ex_creds_sub; ex_creds])))
+  InstrumentedServer_admin_connect ex_o (mk_admin_self (ex_cfg (PList [ex_creds_sub; ex_creds])))
     (PStr (s2l "S0")) (PDict []) ex_creds_perm = Ok PNone /\
-  InstrumentedServer_admin_connect (ex_oracle (Ok PNone)) (mk_admin_self (ex_cfg (PList [ex_creds_sub; ex_creds])))
+  InstrumentedServer_admin_connect ex_o (mk_admin_self (ex_cfg (PList [ex_creds_sub; ex_creds])))
     (PStr (s2l "S0")) (PDict []) PNone = Err ConnectionRefused.
 Proof. split; vm_compute; reflexivity. Qed.
 (* the adopted reading of "equals": Python ==, so true equals a configured 1 *)
 Example ex_python_equality_reading :
-  InstrumentedServer_admin_connect (ex_oracle (Ok PNone)) (mk_admin_self (ex_cfg (PDict [(PStr (s2l "pin"), PInt 1)])))
+  InstrumentedServer_admin_connect ex_o (mk_admin_self (ex_cfg (PDict [(PStr (s2l "pin"), PInt 1)])))
     (PStr (s2l "S0")) (PDict []) (PDict [(PStr (s2l "pin"), PBool true)]) = Ok PNone /\
-  InstrumentedServer_admin_connect (ex_oracle (Ok PNone)) (mk_admin_self (ex_cfg (PDict [(PStr (s2l "pin"), PInt 1)])))
+  InstrumentedServer_admin_connect ex_o (mk_admin_self (ex_cfg (PDict [(PStr (s2l "pin"), PInt 1)])))
     (PStr (s2l "S0")) (PDict []) (PDict [(PStr (s2l "pin"), PStr (s2l "1"))]) = Err ConnectionRefused.
 Proof. split; vm_compute; reflexivity. Qed.
 Example ex_predicate :
-  InstrumentedAsyncServer_admin_connect (ex_oracle (Ok (PStr (s2l "yes")))) (mk_admin_self (ex_cfg (PObj 7)))
+  InstrumentedAsyncServer_admin_connect (ex_oracle (Ok (PStr (s2l "yes"))) None) (mk_admin_self (ex_cfg (PObj 7)))
     (PStr (s2l "S0")) (PDict []) PNone = Ok PNone /\
-  InstrumentedAsyncServer_admin_connect (ex_oracle (Ok (PInt 0))) (mk_admin_self (ex_cfg (PObj 7)))
+  InstrumentedAsyncServer_admin_connect (ex_oracle (Ok (PInt 0)) None) (mk_admin_self (ex_cfg (PObj 7)))
     (PStr (s2l "S0")) (PDict []) PNone = Err ConnectionRefused.
 Proof. split; vm_compute; reflexivity. Qed.
-
-(* FINDING (see notes/C18.md): a predicate that raises is not a refusal *)
-Theorem auth_predicate_exception_not_refused :
-  exists o c sid env a e,
-    ext_total o /\ e <> ConnectionRefused /\
-    InstrumentedServer_admin_connect o (mk_admin_self c) sid env a = Err e /\
-    InstrumentedAsyncServer_admin_connect o (mk_admin_self c) sid env a = Err e.
-Proof.
-  exists (ex_oracle (Err KeyError)), (ex_cfg (PObj 7)), (PStr (s2l "S0")), (PDict []), (PDict []), KeyError.
-  split; [apply ex_oracle_total|]. split; [discriminate|]. split; vm_compute; reflexivity.
-Qed.
+(* a raising predicate refuses; an async callable answering False is awaited and refuses; the
+   threaded class accepts a coroutine result (misuse) *)
+Example ex_raising_and_coroutine :
+  InstrumentedServer_admin_connect (ex_oracle (Err KeyError) None) (mk_admin_self (ex_cfg (PObj 7)))
+    (PStr (s2l "S0")) (PDict []) (PDict []) = Err ConnectionRefused /\
+  InstrumentedAsyncServer_admin_connect (ex_oracle (Ok coroutine_object) (Some (Ok (PBool false)))) (mk_admin_self (ex_cfg (PObj 7)))
+    (PStr (s2l "S0")) (PDict []) (PDict []) = Err ConnectionRefused /\
+  InstrumentedAsyncServer_admin_connect (ex_oracle (Ok coroutine_object) (Some (Ok (PBool true)))) (mk_admin_self (ex_cfg (PObj 7)))
+    (PStr (s2l "S0")) (PDict []) (PDict []) = Ok PNone /\
+  InstrumentedServer_admin_connect (ex_oracle (Ok coroutine_object) (Some (Ok (PBool false)))) (mk_admin_self (ex_cfg (PObj 7)))
+    (PStr (s2l "S0")) (PDict []) (PDict []) = Ok PNone.
+Proof. repeat split; vm_compute; reflexivity. Qed.
 
 (* ------------------------------------------------------------------ *)
 (* registration block of instrument()                                 *)
